@@ -19,9 +19,9 @@ vals.OBJ_LAYOUT[NG]["_all_modules"] = vals.parse_type("Bag[Node]")
 # xs = parent_modules + [child]; hnode(lim, xs, k, x): x is the flattened name of one of the first k elements
 REG.macro("hnode", ["lim", "xs", "k", "x"], "exists(Int, lambda j: 0 <= j and j < k and x == flat(lim, seq_at(xs, j)))")
 # hhit(g0, lim, xs, i, a, b): step i links (a, b): a, b are the flattened names of elements i, i+1, they differ, and b is a node at that moment
-# (a node of the graph at entry, or one of the parents 0..i created so far)
+# (a node of the graph at entry, or one of the parents 0..i created so far; parent i itself is excluded by a != b, so "one of the parents 0..i-1")
 REG.macro("hhit", ["g0", "lim", "xs", "i", "a", "b"],
-          "a == flat(lim, seq_at(xs, i)) and b == flat(lim, seq_at(xs, i + 1)) and a != b and ((b in g0.nodes) or hnode(lim, xs, i + 1, b))")
+          "a == flat(lim, seq_at(xs, i)) and b == flat(lim, seq_at(xs, i + 1)) and a != b and ((b in g0.nodes) or hnode(lim, xs, i, b))")
 REG.macro("hlinked", ["g0", "lim", "xs", "k", "a", "b"], "exists(Int, lambda i: 0 <= i and i < k and hhit(g0, lim, xs, i, a, b))")
 _XS = "(parent_modules + [old(child)])"
 _AEH_STATE = [
